@@ -1,5 +1,5 @@
 /- L0 facts about ChandelierExit::reset (split from Lemmas/ChandelierExit.lean so that a change to one method only invalidates the facts about that method) -/
-import TaRs.Lemmas.ChandelierExit
+import TaRs.Lemmas.Core.ChandelierExit
 import TaRs.Lemmas.Reset.Minimum
 import TaRs.Lemmas.Reset.Maximum
 import TaRs.Lemmas.Reset.AverageTrueRange
